@@ -351,6 +351,12 @@ class StridedInterval:
                 uninitialized=self.uninitialized,
             )
 
+            if self._modular_sub(a_upper_bound, self.lower_bound, self.bits) + self.stride > self._modular_sub(
+                self.upper_bound, self.lower_bound, self.bits
+            ):
+                # No member lies beyond the pole (the upper bound itself is not a member)
+                return [a]
+
             b_lower_bound = self._modular_add(a_upper_bound, self.stride, self.bits)
             b = StridedInterval(
                 bits=self.bits,
@@ -396,6 +402,12 @@ class StridedInterval:
                 upper_bound=a_upper_bound,
                 uninitialized=self.uninitialized,
             )
+
+            if self._modular_sub(a_upper_bound, self.lower_bound, self.bits) + self.stride > self._modular_sub(
+                self.upper_bound, self.lower_bound, self.bits
+            ):
+                # No member lies beyond the pole (the upper bound itself is not a member)
+                return [a]
 
             b_lower_bound = a_upper_bound + self.stride
             b = StridedInterval(
@@ -505,8 +517,8 @@ class StridedInterval:
 
         ssplit = self._ssplit()
         if len(ssplit) == 1:
-            lower = self.lower_bound >> shift_amount
-            upper = self.upper_bound >> shift_amount
+            lower = ssplit[0].lower_bound >> shift_amount
+            upper = ssplit[0].upper_bound >> shift_amount
             stride = max(self.stride >> shift_amount, 1)
 
             return StridedInterval(
@@ -537,10 +549,10 @@ class StridedInterval:
         nsplit = self._nsplit()
         if len(nsplit) == 1:
             # preserve the highest bit :-)
-            highest_bit_set = self.lower_bound > StridedInterval.signed_max_int(nsplit[0].bits)
+            highest_bit_set = nsplit[0].lower_bound > StridedInterval.signed_max_int(nsplit[0].bits)
 
-            lower = self.lower_bound >> shift_amount
-            upper = self.upper_bound >> shift_amount
+            lower = nsplit[0].lower_bound >> shift_amount
+            upper = nsplit[0].upper_bound >> shift_amount
             stride = max(self.stride >> shift_amount, 1)
             mask = (2**shift_amount - 1) << (self.bits - shift_amount)
 
